@@ -385,6 +385,19 @@ def gen_configs(tier, rng):
                                      n_iter_parafac=rng.choice([1, 5])))
 
 
+def gen_linesearch_configs(tier, rng):
+    """PARAFAC2 runs that reach accepted line-search steps (iterations 6, 8, 10) with modes 0 / 2 declared"""
+    for k in range(16 if tier == "quick" else 120):
+        I, K = rng.randint(2, 4), rng.randint(2, 4)
+        R = rng.randint(1, min(K, 3))
+        J = rng.randint(max(R, 2), 5)
+        klass = rng.choice(["signed", "signed", "sparse", "nonneg", "lowrank"])
+        X = gen_tensor(rng, (I, J, K), klass)
+        yield dict(algo="parafac2", tensor=X, klass=klass, rank=R, init="random", n=rng.choice([7, 9, 11]), rs=rng.randrange(10 ** 6),
+                   nn_modes=rng.choice([[0], [2], [0, 2], [0, 2], [0, 1, 2]]),
+                   opts=dict(tol=1e-300, normalize=rng.random() < 0.3, linesearch=True, n_iter_parafac=rng.choice([1, 2, 5])))
+
+
 def quiet_run(cfg):
     with warnings.catch_warnings():
         warnings.simplefilter("ignore")
@@ -566,6 +579,8 @@ def run(chk):
     stats = {"not_ok": [], "checked": 0, "undeclared_negative": 0}
     for cfg in gen_configs(chk.tier, rng):
         evaluate_cfg(chk, cfg, stats)
+    for cfg in gen_linesearch_configs(chk.tier, rng):
+        evaluate_cfg(chk, cfg, stats)
     for cfg in gen_solver_cfgs(chk.tier, rng):
         evaluate_solver(chk, cfg, stats)
     stage("decomposition_runs")
@@ -584,6 +599,20 @@ def replay(payload):
         print("replay file names a broken theorem/correspondence, not an input:", payload.get("theorem_or_correspondence"))
         return 1
     inp = payload["inputs"]
+    if "slices" in inp and "last" in inp:
+        from tensorly.decomposition._parafac2 import _BroThesisLineSearch
+        C.reset_backends()
+        nn = inp["nn_modes"]
+        ls = _BroThesisLineSearch(1.0, "truncated_svd", nn_modes=nn, acc_pow=inp["acc_pow"])
+        last, cur = [arr(x) for x in inp["last"]], [arr(x) for x in inp["cur"]]
+        st, r = C.call_impl(lambda: ls.line_step(inp["iteration"], [arr(x) for x in inp["slices"]], last, np.ones(last[0].shape[1]), cur,
+                                                 [arr(x) for x in inp["projections"]], np.inf), timeout=120)
+        if st != "ok":
+            print("replay: raised", r)
+            return 1
+        bad = [m for m in (0, 2) if m in nn and not (np.asarray(r[0][m]) >= 0).all()]
+        print("replay: line_step ->", bad or "holds")
+        return 1 if bad else 0
     if "solver" in inp:
         cfg = dict(inp)
         C.reset_backends()
@@ -673,7 +702,7 @@ def corr_mu_cp(rng, tier):
         w = np.ones(rank) if rng.random() < 0.6 else np.array([rng.choice([0.5, 2.0, 1.0, 0.0 if rank > 1 else 1.5]) for _ in range(rank)])
         nm = rng.random() < 0.5
         fixed = [rng.randrange(order - 1)] if rng.random() < 0.3 else []
-        n = rng.choice([0, 1, 1, 2] if order == 2 else [0, 1, 1])
+        n = rng.choice([0, 1, 1, 2] if (order == 2 and (rank == 1 or not nm)) else [0, 1, 1])    # exact rationals grow fast with the depth
         modes = [m for m in range(order) if m not in fixed]
         st, r = C.call_impl(lambda: non_negative_parafac(X.copy(), rank, n_iter_max=n, init=(w.copy(), [f.copy() for f in Fs]), tol=0,
                                                          normalize_factors=nm, fixed_modes=list(fixed)), timeout=60)
@@ -876,7 +905,7 @@ def corr_mu_tucker(rng, tier):
     return out, skipped
 
 
-def corr_line(rng, tier):
+def corr_line(rng, tier, chk):
     from tensorly.decomposition._parafac2 import _BroThesisLineSearch
     out = []
     nrun = 16 if tier == "quick" else 100
@@ -895,6 +924,12 @@ def corr_line(rng, tier):
         st, r = C.call_impl(lambda: ls.line_step(it, slices, [f.copy() for f in last], np.ones(R), [f.copy() for f in cur], projs, np.inf), timeout=60)
         if st != "ok" or r[0] is None or not finite_all(*r[0]) or not np.isfinite(r[2]):
             continue
+        for m_ in (0, 2):       # the line-search iterate itself (observation point of the clipping); mode 1: known finding
+            if nn and m_ in nn and not (np.asarray(r[0][m_]) >= 0).all():
+                chk.finding("tensorly.decomposition._parafac2._BroThesisLineSearch.line_step",
+                            {"nn_modes": nn, "iteration": it, "acc_pow": acc, "last": last, "cur": cur, "slices": slices, "projections": projs},
+                            f"accepted line-search iterate of declared mode {m_} has negative entries: {float(np.min(r[0][m_]))!r}",
+                            "line_search_iterate_nonnegative", observed=list(r[0]))
         op = f"(OLine {C.nat_list(nn or [])} {C.q(jump)} {qmats_lit(last)} {qmats_lit(cur)})"
         meta = {"corr": "_BroThesisLineSearch.line_step", "nn_modes": nn, "iteration": it, "acc_pow": acc, "last": last, "cur": cur}
         out.append((op, Fraction(1, 10 ** 9), [], list(r[0]), meta))
@@ -909,7 +944,7 @@ def run_correspondence(chk, rng):
     groups += corr_normalize(rng, chk.tier)
     tk, skipped_py = corr_mu_tucker(rng, chk.tier)
     groups += tk
-    groups += corr_line(rng, chk.tier)
+    groups += corr_line(rng, chk.tier, chk)
     # interleave the groups so that every shard gets a mix of cheap and expensive cases
     nsh = max(1, -(-len(groups) // (12 if chk.tier == "quick" else 25)))
     groups = [g for k in range(nsh) for g in groups[k::nsh]]
@@ -923,8 +958,27 @@ def run_correspondence(chk, rng):
     for i in (0, len(cases) // 2, len(cases) - 1):
         if 0 <= i < len(cases):
             chk.sample({"correspondence": meta[i]["corr"], "inputs": C.jsonable({k: v for k, v in meta[i].items() if k != "corr"})})
-    failing, n_eval, broken = C.run_case_shards("C10", HEADER, "case", cases, shard=12 if chk.tier == "quick" else 25, timeout=900)
+    shard = 12 if chk.tier == "quick" else 25
+    failing, n_eval, broken = C.run_case_shards("C10", HEADER, "case", cases, shard=shard, timeout=400)
     chk.checker_cmds.append("coqc (vm_compute) on generated build/cases/C10/*.v: Corr.C10.failing")
+    # a shard that ran out of time / memory (shared machine) is re-run case by case; a single case that still exceeds its budget
+    # is counted as skipped, never as a disagreement; many unevaluated cases mean the machinery is broken and are reported
+    over_budget = 0
+    if broken and len(broken) * shard <= 0.25 * len(cases) + shard:
+        import re as _re, shutil as _sh
+        redo = []
+        for b in broken:
+            k = int(_re.search(r"S(\d+)\.v$", b["shard"]).group(1))
+            redo += list(range(k * shard, min(len(cases), (k + 1) * shard)))
+            _sh.rmtree(os.path.dirname(b["shard"]), ignore_errors=True)
+        f2, n2, b2 = C.run_case_shards("C10", HEADER, "case", [cases[i] for i in redo], shard=1, timeout=150, tag="retry")
+        failing |= f2
+        n_eval += n2
+        over_budget = len(b2)
+        if b2:
+            _sh.rmtree(os.path.dirname(b2[0]["shard"]), ignore_errors=True)
+        broken = [] if over_budget <= 3 else b2
+    chk.cov["skipped_model_evaluation_over_budget"] = over_budget
     skipped = sorted(i // 2 for i in failing if i % 2 == 1)
     bad = sorted(i // 2 for i in failing if i % 2 == 0)
     chk.cov["traces_validated_against_impl"] = n_eval - len(skipped)
